@@ -127,9 +127,16 @@ class DescriptorFormat:
         }
         expected_wildcards = {"mother", "daughters"}
         for pattern in new_config.values():
-            wildcards = {
-                t[1] for t in string.Formatter().parse(pattern) if isinstance(t[1], str)
-            }
+            wildcards = set()
+            for _, field_name, format_spec, _ in string.Formatter().parse(pattern):
+                if isinstance(field_name, str):
+                    wildcards.add(field_name)
+                # A format specification can itself contain (nested) wildcards
+                wildcards.update(
+                    t[1]
+                    for t in string.Formatter().parse(format_spec or "")
+                    if isinstance(t[1], str)
+                )
             if wildcards != expected_wildcards:
                 error_msg = (
                     "The pattern should only have the wildcards "
